@@ -86,7 +86,11 @@ def R1_edge_step(ctx):
         # access only when there is a neighbouring edge
         gate = None
         for sbb, dt, names, t in switches(b, tm):
-            if deep_strip(dt) == ("discr", ("arg", 2)) and names:
+            d_ = nosite(deep_strip(dt))
+            # (Some/None of `opt.map(f)` is Some/None of opt)
+            while d_[0] == "discr" and d_[1][0] == "call" and re.search(r"Option::<T>::(map|copied|cloned|as_ref)$", d_[1][1].split("{")[0]) and d_[1][2]:
+                d_ = ("discr", d_[1][2][0])
+            if d_ == ("discr", ("arg", 2)) and names and "Some" in names.values():
                 gate = (sbb, switch_target(t, names, "Some"))
         ctx.check(gate is not None and b.dominates(gate[1], acc.bb) and not b.dominates(gate[1], trv.bb), fn + ":access-iff-neighbour", "access update is not applied exactly when a neighbouring edge exists (and traversal always)", acc.where())
 
